@@ -74,6 +74,34 @@ func ruleWriterDiscipline(c *eng.Ctx) {
 					if _, isBuiltin := cc.Value.(*ssa.Builtin); isBuiltin {
 						continue
 					}
+					// a call through a function value (a table of writer functions): every function the call
+					// graph resolves it to is a function of this package, held to the same rule
+					if cc.StaticCallee() == nil && !cc.IsInvoke() {
+						if node := c.P.CallGraph().Nodes[fn]; node != nil {
+							n, allIn := 0, true
+							for _, e := range node.Out {
+								if e.Site != x {
+									continue
+								}
+								n++
+								cf := e.Callee.Func
+								if cf.Pkg == nil && cf.Synthetic != "" {
+									// a method-expression thunk: judged by what it forwards to
+									for _, inner := range eng.Calls(cf, false, func(string, ssa.CallInstruction) bool { return true }) {
+										if t := inner.Common().StaticCallee(); t != nil {
+											cf = t
+										}
+									}
+								}
+								if cf.Pkg != fn.Pkg {
+									allIn = false
+								}
+							}
+							if n > 0 && allIn {
+								continue
+							}
+						}
+					}
 					bad = append(bad, fmt.Sprintf("writer passed to %s at %s", n, c.P.Pos(x.Pos())))
 				case *ssa.Store:
 					uses++ // kept in a struct (StreamExporter): its uses are checked where it is loaded
